@@ -94,12 +94,13 @@ def quaternion_from_two_vectors_around_axis(p1, p2, axis):
         angle *= -1
     return R.from_quat([*(axis*np.sin(-angle / 2)), np.cos(-angle/2)])
 
-def guess_elements_from_masses(masses, max_delta=1e-2):
+def guess_elements_from_masses(masses, max_delta=1e-1):
     def find_element(elmass):
-        for sym, mass in ATOMIC_MASSES.items():
-            if elmass - mass < max_delta:
-                return sym
-        raise Exception("no element matching mass %8.5f in elements list. Please add one?")
+        # pick the element with the closest mass, and only accept it if it is within max_delta
+        sym, mass = min(ATOMIC_MASSES.items(), key=lambda sm: abs(sm[1] - elmass))
+        if abs(mass - elmass) < max_delta:
+            return sym
+        raise Exception("no element matching mass %8.5f in elements list. Please add one?" % elmass)
 
     return [find_element(m) for m in masses]
 
